@@ -1242,6 +1242,9 @@ func (fr *Frame) checkFrame(st *State, ret *ssa.Return) {
 		if now == was {
 			continue
 		}
+		if k == "g|emits" || k == "g|last_level" || k == "g|last_msg" || k == "g|last_args" {
+			continue // what a function logs is pinned down by explicit clauses (C10), not by frames: adding a log line is not a frame violation
+		}
 		if strings.HasPrefix(k, "d|") || strings.HasPrefix(k, "it|") || k == "g|$heap" || k == "g|$panicking" || k == "g|$held" || k == "g|$closed" {
 			continue
 		}
